@@ -6,6 +6,7 @@ import drv_calendar
 import drv_computus
 import drv_leap
 import drv_angle
+import drv_heap
 
 YMIN, YMAX = -4712, 6000
 
@@ -201,4 +202,56 @@ def plan_C04(tier, seed):
                      "for read-back modulo 24 h, so only the tuple form is required to stay below 24"])
 
 
-PLANS = {"C04": plan_C04, "C10": plan_C10, "C01": plan_C01, "C16": plan_C16, "C19": plan_C19}
+def _nt_c03(ev):
+    k = ev["k"]
+    if k == "new":
+        return (k, ev["form"], ev.get("via"), str(ev.get("inp")))
+    if k == "op":
+        return (k, ev["op"], ev["bk"], ev["xf"], ev["yf"], ev["n"])
+    if k in ("pos", "view"):
+        return (k, ev["xf"])
+    if k == "step":
+        o = ev["o"]
+        return (k, o["t"], o["op"], o["dst"], o["l"], o["r"], o["k"], tuple(ev["sh"]))
+    return None
+
+
+def _heap_shards(kind, tier, seed, parts):
+    cfg = "Trace_ObjHeap_%s.cfg" % kind
+    sh = [Shard("heap_%s_d2_%02d" % (kind, i), drv_heap.gen_heap,
+                dict(kind=kind, depth=2, simulate=0, seed=0, part=i, parts=parts), "Trace_ObjHeap", cfg)
+          for i in range(parts)]
+    nsim, dsim = (600, 6) if tier == "quick" else (12000, 8)
+    sp = 2 if tier == "quick" else 8
+    sh += [Shard("heap_%s_sim_%02d" % (kind, i), drv_heap.gen_heap,
+                 dict(kind=kind, depth=dsim, simulate=nsim, seed=seed, part=i, parts=sp), "Trace_ObjHeap", cfg)
+           for i in range(sp)]
+    return sh
+
+
+def plan_C03(tier, seed):
+    T = ("Trace_Angle", "Trace.cfg")
+    nsh, pn, po = (6, 400, 2500) if tier == "quick" else (16, 8000, 60000)
+    sh = [Shard("new_%02d" % i, drv_angle.gen_new, dict(seed=seed, n=pn, shard=i), *T) for i in range(nsh)]
+    sh += [Shard("ops_%02d" % i, drv_angle.gen_ops, dict(seed=seed, n=po, shard=i), *T) for i in range(nsh)]
+    sh += _heap_shards("angle", tier, seed, 6)
+    return dict(
+        mc=[MC("MC_Angle", "MC_Angle.cfg", workers=4, heap="2g", note="value algebra laws on a dyadic grid"),
+            MC("MC_ObjHeap", "MC_ObjHeap_angle.cfg", workers=1, heap="3g", env={"HEAP_DEPTH": "2"},
+               note="all heap operation sequences of depth 2 (frame laws as action properties)")],
+        shards=sh, level="model_checking", exhaustive=False, nontrivial=_nt_c03,
+        rule="TLC checks the Angle value algebra (Reduce range/sign/idempotence/congruence, operator compatibility, ToPositive, "
+             "sign-preserving modulo) on a dyadic grid and the heap model (operators allocate, in-place forms rebind, only "
+             "documented mutators change an object) for every operation sequence of depth 2. Conformance: (a) every one of those "
+             "TLC behaviours, plus -simulate behaviours of depth 6-8, is executed on real Angle objects and each step validated "
+             "against ObjHeap (values behind every name, copy independence); (b) constructors from floats/ints up to 1e15 "
+             "(multiples of 360, +-ulp neighbours, denormals), radians, RA hours, sexagesimal pieces in args/tuple/list forms with "
+             "signs on any piece; all 20 operators x operand kinds Angle/int/float incl. zero divisors; to_positive; rad/RA views. "
+             "Exact results are computed by TLC in fixed point (quotients through verified witnesses). Distinct case = distinct "
+             "input tuple / operation record.",
+        assumptions=["% is specified for positive moduli as the sign-preserving remainder the class documents",
+                     "pow is specified for integer exponents 0..4; division by an Angle smaller than 1e-9 is unspecified",
+                     "radian inputs: exact degrees computed with a 50-digit pi (representational)"])
+
+
+PLANS = {"C03": plan_C03, "C04": plan_C04, "C10": plan_C10, "C01": plan_C01, "C16": plan_C16, "C19": plan_C19}
